@@ -127,7 +127,7 @@ func init() {
 			{"robust.IdFromRaftIndex", post}, {"raftlog.FromBytes", post},
 			{"raftstore.LevelDBStore.GetLog", asserts}, {"raftstore.LevelDBStore.StoreLogs", asserts}, {"raftstore.LevelDBStore.StoreLogProto", asserts},
 			{"raftstore.LevelDBStore.ConvertToProto", asserts},
-			{"main.FSM.Apply", asserts}, {"main.FSM.Snapshot", asserts}, {"main.FSM.decodeProtobuf", asserts}, {"main.dumpLogToDisk1", asserts}, {"main.canary", asserts},
+			{"main.FSM.Apply", asserts}, {"main.FSM.Snapshot", vc.UnitOpts{AssertsOnly: true, Groups: []string{"decoded", "same-entry"}}}, {"main.FSM.decodeProtobuf", asserts}, {"main.dumpLogToDisk1", asserts}, {"main.canary", asserts},
 			{"outputstream.unmarshalMessageBatch", post},
 		}
 		return nil
